@@ -7,7 +7,7 @@ RS = "breezy.revisionspec"
 BR = "breezy.branch"
 FUNCTIONS = [BR + ":Branch.dotted_revno_to_revision_id", BR + ":Branch._do_dotted_revno_to_revision_id",
              BR + ":Branch.revision_id_to_dotted_revno", BR + ":Branch._do_revision_id_to_dotted_revno",
-             BR + ":Branch.get_revision_id_to_revno_map",RS + ":RevisionSpec.from_string", RS + ":RevisionSpec.in_history", RS + ":RevisionSpec_revno._lookup",
+             BR + ":Branch.get_revision_id_to_revno_map", BR + ":Branch._clear_cached_state", RS + ":RevisionSpec.from_string", RS + ":RevisionSpec.in_history", RS + ":RevisionSpec_revno._lookup",
              RS + ":RevisionSpec_last._revno_and_revision_id", RS + ":RevisionSpec_before._match_on",
              RS + ":RevisionSpec_dwim._match_on", RS + ":RevisionInfo"]
 STUBS = ["branch = stub with a symbolic number of mainline revisions: last_revision_info(), get_rev_id(n) (null revision "
@@ -299,6 +299,97 @@ def ob_dotted_map(cx):
     cx.observe("got", "invalid" if got == "invalid" else got.rev_id)
 
 
+def ob_renumbered(cx):
+    """A dotted specifier is resolved (which stores the reverse mapping in a per-branch cache), then the tip moves - the
+    branch drops its cached state, as set_last_revision_info and unlock do - and the merged revisions carry NEW numbers:
+    revision id -> number must answer with the new numbering, and the two directions must again be inverse."""
+    R = cx.mod(RS)
+    B = cx.mod(BR)
+    E = cx.real("breezy.errors")
+    last = cx.choose("last", 1, cx.p("maplast"))
+    k = cx.choose("merged", 1, cx.p("merged"))
+    mx = cx.p("maxc")
+    T = cx.truth
+
+    def numbering(tag):
+        nums = []
+        for i in range(k):
+            t = (cx.int("%s%da" % (tag, i), 0, mx), cx.int("%s%db" % (tag, i), 1, mx), cx.int("%s%dc" % (tag, i), 1, mx))
+            cx.assume(t[0] <= last)
+            for o in nums:
+                cx.assume(not (T(o[0] == t[0]) and T(o[1] == t[1]) and T(o[2] == t[2])))
+            nums.append(t)
+        return nums
+    ids = [b"merged-%d" % i for i in range(k)]
+    phases = [numbering("old"), numbering("new")]
+    state = {"phase": 0}
+
+    class Stub(B.Branch):
+        def __init__(self):
+            # what Branch.__init__ sets up
+            self._revision_history_cache = None
+            self._revision_id_to_revno_cache = None
+            self._partial_revision_id_to_revno_cache = {}
+            self._partial_revision_history_cache = []
+            self._last_revision_info_cache = None
+            self._master_branch_cache = None
+            self._merge_sorted_revisions_cache = None
+
+            class Repo:
+                has_revision = staticmethod(lambda rev_id: True)
+            self.repository = Repo
+
+        def lock_read(self):
+            import contextlib
+            return contextlib.nullcontext()
+
+        def revno(self):
+            return last
+
+        def last_revision_info(self):
+            return last, b"main-%d" % last
+
+        def get_rev_id(self, revno, history=None):
+            if revno == 0:
+                return b"null:"
+            if revno < 0 or revno > last:
+                raise E.RevnoOutOfBounds(revno, (0, last))
+            return b"main-%d" % revno
+
+        def revision_id_to_revno(self, revision_id):
+            for n in range(1, last + 1):
+                if revision_id == b"main-%d" % n:
+                    return n
+            raise E.NoSuchRevision(self, revision_id)
+
+        def _gen_revno_map(self):
+            m = {}
+            for n in range(1, last + 1):
+                m[b"main-%d" % n] = (n,)
+            for i in range(k):
+                m[ids[i]] = phases[state["phase"]][i]
+            return m
+    b = Stub()
+    which = cx.choose("resolved", 0, k - 1)
+    got = _resolve(cx, R, fmt("revno:%d.%d.%d", phases[0][which]), b)
+    cx.require(got != "invalid" and got.rev_id == ids[which], "the dotted specifier of an existing revision did not resolve to it")
+    if cx.choose("also_by_id", 0, 1):
+        b.revision_id_to_dotted_revno(ids[which])
+    # the tip moves: BzrBranch.set_last_revision_info / unlock drop the cached state, the graph now numbers differently
+    b._clear_cached_state()
+    state["phase"] = 1
+    for i in range(k):
+        back = b.revision_id_to_dotted_revno(ids[i])
+        cx.require(len(back) == 3 and all(T(x == y) for x, y in zip(back, phases[1][i])),
+                   "after the tip moved, revision id -> dotted revno still answers with the number the revision had before")
+        cx.require(b.dotted_revno_to_revision_id(tuple(phases[1][i])) == ids[i], "dotted revno -> revision id is not the inverse "
+                   "after the tip moved")
+    if any(not T(x == y) for x, y in zip(phases[0][which], phases[1][which])):
+        cx.cover("resolved_revision_renumbered")
+    else:
+        cx.cover("number_kept")
+
+
 def _ref_parse(cx, tail):
     """Reference reading of the text after 'revno:' -> ('int', n) | ('dotted', tuple) | None (invalid)."""
     def as_int(s):
@@ -358,6 +449,11 @@ def obligations(tier):
            bounds="branch with 0..%(maplast)d mainline revisions and <= %(merged)d merged revisions carrying arbitrary distinct "
                   "dotted numbers a.b.c (a 0..number of mainline revisions, 0 = second root; b, c 1..%(maxc)d); query "
                   "revno:a.b.c arbitrary with a 0..%(maxc)d" % p),
+        Ob("renumbered_after_tip_move", ob_renumbered, [RS, BR], dict(p, merged=1 if q else 2), to, 2 if q else 1,
+           ["resolved_revision_renumbered", "number_kept"],
+           bounds="branch with 1..%(maplast)d mainline revisions and 1..%(nm)d merged revisions with arbitrary distinct dotted "
+                  "numbers (components as above) before and after a tip move; one of them resolved through revno:a.b.c first"
+                  % dict(p, nm=1 if q else 2)),
         Ob("numeric_specifiers", ob_numeric, [RS], p, to, 1, ["negative", "last", "before", "rejected", "resolved", "nested"],
            bounds="branch with 0..%(maxlast)d revisions, n in -%(maxn)d..%(maxn)d, forms revno:n / n / last:n / before:n / "
                   "before:revno:n / before:before:n / before:before:revno:n / before:last:n" % p),
